@@ -241,8 +241,14 @@ fn draw_mem_spec(rng: &mut Rng) -> MemSpec {
 /// Draw the case (without ops) and the swarm profile for one run.
 pub fn generate(prop: &str, rng: &mut Rng, skip_fast: bool, run_index: u64) -> (Case, Profile) {
     // systematic scalar sweeps (C12, C17): every other run
-    if !crate::gen::tiny() && ((prop == "C17" && run_index % 2 == 0) || (prop == "C12" && run_index % 2 == 0)) {
-        let spec = if prop == "C17" { sweep_enc_spec(rng, &CJK7, run_index / 2, prop) } else { sweep_enc_spec(rng, &SWEEP11, run_index / 2, prop) };
+    // (C04, C09: every fourth run)
+    let sweep_every = match prop {
+        "C17" | "C12" => 2,
+        "C04" | "C09" => 4,
+        _ => 0,
+    };
+    if !crate::gen::tiny() && sweep_every != 0 && run_index % sweep_every == 0 {
+        let spec = if prop == "C17" { sweep_enc_spec(rng, &CJK7, run_index / sweep_every, prop) } else { sweep_enc_spec(rng, &SWEEP11, run_index / sweep_every, prop) };
         let mut p = Profile::draw(rng, &[K_SLICE, K_STRING]);
         p.thresholds = vec![10, 14, 13, 4];
         p.pipe = prop == "C12";
